@@ -338,3 +338,7 @@ def check(run):
     r4_generator(run, F)
     r5_visit(run, F)
     r6_pass_order(run, F)
+    # the flags and the lint list live in per-module analyzer / linter objects: a second module must start from fresh ones,
+    # or it inherits `is_in_block` / reports the first module's L1800 again (shared with C12.R3)
+    from props import c12
+    c12.r3_compiler_reset(run, F)
